@@ -148,6 +148,52 @@ func runC12(c *Ctx) {
 				}
 			}
 		}
+		// ... or one lookup in a forward loop over a literal list of tag names that starts with the specific tag, the
+		// first hit being returned
+		if !okN && first != nil {
+			var names []ssa.Value
+			var idx ssa.Value
+			switch k := first.Call.Args[1].(type) {
+			case *ssa.Index:
+				if ld, ok := k.X.(*ssa.UnOp); ok && ld.Op == token.MUL {
+					if al, ok := ld.X.(*ssa.Alloc); ok {
+						names, idx = arrayElems(al), k.Index
+					}
+				}
+			case *ssa.UnOp:
+				if ia, ok := k.X.(*ssa.IndexAddr); ok && k.Op == token.MUL {
+					idx = ia.Index
+					switch x := ia.X.(type) {
+					case *ssa.Alloc:
+						names = arrayElems(x)
+					case *ssa.Slice:
+						if al, ok := x.X.(*ssa.Alloc); ok {
+							names = arrayElems(al)
+						}
+					}
+				}
+			}
+			nLook := 0
+			for _, i := range allInstrs(mk) {
+				if ci, ok := i.(*ssa.Call); ok && calleeFullName(ci) == "(reflect.StructTag).Lookup" {
+					nLook++
+				}
+			}
+			if len(names) >= 1 && idx != nil && isForwardRangeIndex(idx) && nLook == 1 {
+				if s0, ok := constString(names[0]); ok && s0 == pk.tag {
+					// the hit is returned: a return of the looked-up value dominated by ok, and the loop has no other early exit
+					for _, r := range returnsOf(mk) {
+						if e, ok := retVals(r)[0].(*ssa.Extract); ok && e.Tuple == ssa.Value(first) && e.Index == 0 {
+							for _, ec := range condsDominating(r.Block()) {
+								if e2, ok := ec.Cond.(*ssa.Extract); ok && e2.Tuple == ssa.Value(first) && e2.Index == 1 && ec.Val && ec.If.Block() == first.Block() {
+									okN = true
+								}
+							}
+						}
+					}
+				}
+			}
+		}
 		c.check(okN, "name-precedence", short, mk.Pos(), "the "+pk.tag+" tag is consulted first and returned when present", "mkname does not give the "+pk.tag+" tag precedence")
 
 		// ---- narrowing-guard / error-not-value (standard library package) --------------------------
